@@ -36,6 +36,8 @@ def run(ctx):
               label="negative self-test: one shared default scale breaks isolation after Construct;Construct;Export")
     ctx.model("Timelines", "NegTimelines_shareddir.cfg", workers=2, expect_violation="Isolation",
               label="negative self-test: reading the direction back from the shared default engine-option dict breaks isolation")
+    ctx.model("Timelines", "NegTimelines_omitted.cfg", workers=2, expect_violation="Isolation",
+              label="negative self-test: instances constructed without an options argument sharing one scale object (a mutable default) break isolation")
     ctx.model("Timelines", "MCTimelines_unbounded.cfg", workers=4, heap="4g",
               label="construct/export histories of EVERY length over 3 timelines x 6 configurations (finite graph: a fresh scale object is named after the instance that holds it, the history variable is dropped from the view): Isolation, Idempotent")
     ctx.model("Timelines", "NegTimelines_refit.cfg", workers=2, expect_violation="Isolation",
